@@ -1,6 +1,7 @@
 """C10 - every dynamic node is evaluated exactly once, independent of layout."""
 from ..mutate import Mutant, in_func, delete_stmt
 from . import evalrules as er
+from . import unitrules
 from . import c07, c01, c19
 
 from .common import Guard  # noqa: E402
@@ -13,6 +14,7 @@ DECIDED = [
     'R4: plain containers evaluate every child once, in order (C01.R5).',
     'R5: cached values are not handed out around the strict-mode safety test (C07.R4) - the statically visible key-order dependence.',
     'R6: copying the tree before evaluation preserves sharing: any __deepcopy__ passes its memo on (C19.R5).',
+    'R7: EvalContext.PartialChild.__getitem__ evaluated on 4 rows: an absent entry is evaluated from the config node of that key under the extended path and is the result; a present one is returned as stored (re-checked in strict mode).',
 ]
 UNDECIDED = ['order independence and re-entrancy in general;', '"nodes deleted by later stages never run" (follows from evaluating only the merged tree; not checked).']
 
@@ -25,6 +27,7 @@ def check(repo, run, tier):
     g(c01.plain_container_eval, repo, run, 'C10.R4')
     g(_as, run, 'C07.R4', 'C10.R5', lambda: c07.r4(repo, run))
     g(_as, run, 'C19.R5', 'C10.R6', lambda: c19.r5(repo, run))
+    g(unitrules.partial_child_getitem, repo, run, 'C10.R7')
     g.done()
 
 
@@ -48,6 +51,7 @@ def _as(run, old, new, fn):
 
 def mutants(repo):
     return [
+        Mutant('lazy-entry-path', lambda r: in_func(r, 'EvalContext.PartialChild.__getitem__', "self._eval_ctx.evaluate_node(node, self._path + [key])", "self._eval_ctx.evaluate_node(node, self._path)"), ['C10.R7']),
         Mutant('memo-get-none-is-miss', lambda r: in_func(r, 'EvalContext.evaluate_node',
                "        if id(cfgobj) in self._eval_cache_id:\n            return self._eval_cache_id[id(cfgobj)]", "        cached = self._eval_cache_id.get(id(cfgobj))\n        if cached is not None:\n            return cached"), ['C10.R1']),
         Mutant('memo-only-for-containers', lambda r: in_func(r, 'EvalContext.evaluate_node',
